@@ -10,7 +10,9 @@ code in which instances are independent the pair behaves exactly like two solo r
 Schedules (all exhaustive in the events of both instances up to the stated length):
   alt   a b a b ...                       strict alternation, both constructed up front
   free  every interleaving                 at every node either instance may move
-  seq   a x h, then b is CONSTRUCTED and gets the remaining events   ("an object made after another one was used")
+  seq   a x h, then b is CONSTRUCTED and gets hb events, then a goes on  ("an object made after another one was used",
+        and the first one used again after that)
+  blocks  like seq but both constructed up front: a runs ahead, b catches up only part of the way, a goes on
 
 ``derive`` turns a module's own dfs tasks into pair tasks: per system a few configurations, each paired with itself and
 with its neighbour, explored from the initial state (the root split of the base task is dropped) to a depth whose node
@@ -28,7 +30,17 @@ PREFIX = "Pair:"
 # (none at present); module attribute PAIR_EXCLUDE = {"SystemName", ...} adds to it
 EXCLUDE = {}
 
-NODE_CAP = {"quick": 12000, "thorough": 150000}
+NODE_CAP = {"quick": 6000, "thorough": 150000}
+# systems whose single step costs a millisecond or more (tree builds, histograms, kNN graphs, PCA, ensembles): a quarter
+# of the node budget (deterministic, so that the bound explored does not depend on the machine's load)
+HEAVY = ("Kdq", "PCACD", "NNDVI", "HDDDM", "CDBD", "MD3", "Stream", "Batch", "Multi", "Ens")
+
+
+def node_cap(tier, system_name):
+    cap = NODE_CAP[tier]
+    if any(h in system_name for h in HEAVY):
+        cap //= 4
+    return cap
 CFGS_PER_SYSTEM = {"quick": 3, "thorough": 8}
 DEFAULT_ON = "0"  # flipped to "1" once every check has been run silent with pairs (VERIF_PAIRS overrides)
 
@@ -39,7 +51,7 @@ class Pair(System):
         self.name = PREFIX + base.name
 
     def init(self, cfg):
-        lazy_b = cfg["sched"] == "seq"
+        lazy_b = cfg["sched"] == "seq"  # "blocks": same phases, b constructed up front
         sa = self.base.init(cfg["a"])
         sb = self.base.init(cfg["b"])
         alph_b0 = list(self.base.alphabet(cfg["b"], sb, 0))
@@ -58,10 +70,10 @@ class Pair(System):
             return self._alph(cfg, state, 0) + self._alph(cfg, state, 1)
         if sched == "alt":
             first = pos % 2
-        else:  # seq
-            first = 0 if pos < cfg["h"] else 1
+        else:  # seq / blocks: a x h, b x hb, a for the rest
+            first = 0 if (pos < cfg["h"] or pos >= cfg["h"] + cfg["hb"]) else 1
         evs = self._alph(cfg, state, first)
-        if not evs and sched == "alt":
+        if not evs:
             evs = self._alph(cfg, state, 1 - first)
         return evs
 
@@ -151,9 +163,9 @@ def derive(mod, tasks, tier):
     if os.environ.get("VERIF_PAIRS", DEFAULT_ON) == "0" or getattr(mod, "NO_PAIRS", False):
         return []
     out = []
-    cap = NODE_CAP[tier]
     for name, chosen in choose(mod, tasks, CFGS_PER_SYSTEM[tier]):
         base = mod.SYSTEMS[name]
+        cap = node_cap(tier, name)
         pairs = []
         for j, t in enumerate(chosen):
             pairs.append((t, t))
@@ -183,9 +195,9 @@ def derive(mod, tasks, tier):
                 # equal-configuration pair gets draws of its own (its model / twin is seeded with the same id), so that
                 # something handed from one instance to the other is not hidden by being identical anyway
                 cfg_b["id"] = "%s~b" % (cfg_b["id"],)
-            for sched, depth in (("alt", d_alt), ("free", d_free), ("seq", d_alt)):
+            for sched, depth in (("alt", d_alt), ("free", d_free), ("seq", d_alt), ("blocks", d_alt)):
                 cfg = {"id": "pair:%s+%s:%s" % (ida, idb, sched), "a": ta["cfg"], "b": cfg_b, "sched": sched,
-                       "h": depth // 2}
+                       "h": depth // 2, "hb": max(1, depth // 2 - 1)}
                 out.append({
                     "system": PREFIX + name, "cfg": cfg, "prefix": [], "depth": depth,
                     "label": "%s%s|%s+%s|%s|d%d" % (PREFIX, name, ida, idb, sched, depth),
